@@ -18,7 +18,8 @@ R_DSets == <<{"*plates*"}, {"p"}, {"a"}, {"b"}, {"a", "b", "p"}, {"p", "c", "sol
 Tr(sn, sr, dn, dr, q, u) == [call |-> "transfer", sn |-> sn, sr |-> sr, dn |-> dn, dr |-> dr, q |-> q, u |-> u]
 Rm(n, r, what) == [call |-> "remove", n |-> n, r |-> r, what |-> what]
 Fl(n, r, solvent, u, T) == [call |-> "fill_to", n |-> n, r |-> r, solvent |-> solvent, u |-> u, T |-> T]
-Dl(n, solute, nu, du, solvent, t) == [call |-> "dilute", n |-> n, solute |-> solute, nu |-> nu, du |-> du, solvent |-> solvent, t |-> t]
+Dl(n, solute, nu, du, solvent, t) == [call |-> "dilute", n |-> n, solute |-> solute, nu |-> nu, du |-> du, solvent |-> solvent, t |-> t, rename |-> "-"]
+DlAs(n, solute, nu, du, solvent, t, name) == [call |-> "dilute", n |-> n, solute |-> solute, nu |-> nu, du |-> du, solvent |-> solvent, t |-> t, rename |-> name]
 Cc(n, cap, entries) == [call |-> "create_container", n |-> n, cap |-> cap, entries |-> entries]
 Cs(n, solute, solvent, q, qu, total, tu) == [call |-> "create_solution", n |-> n, solute |-> solute, solvent |-> solvent,
                                              q |-> q, qu |-> qu, total |-> total, tu |-> tu]
@@ -45,6 +46,7 @@ LIFE_Alphabet == <<
   Tr("a", "-", "b", "-", R(1, 4), "L"), Tr("a", "-", "p", "row1", R(1, 4), "L"), Tr("u", "-", "b", "-", R(1, 4), "L"),
   Tr("a", "-", "u", "-", R(1, 4), "L"),
   Rm("b", "-", "E"), Rm("u", "-", "W"), Dl("a", "N", "mol", "L", "W", R(1, 10)), Dl("u", "N", "mol", "L", "W", R(1, 10)),
+  DlAs("a", "N", "mol", "L", "W", R(1, 10), "renamed"),
   Fl("p", "plate", "W", "L", I(2)), Fl("u", "-", "W", "L", I(6)),
   Ss("s1"), Es("s1"), Ss("s2"), Es("s2"), Ss("all"), Es("all"), Bk>>
 
@@ -64,12 +66,12 @@ PROG_Steps == <<
   Tr("p", "plate", "a", "-", R(1, 2), "L"),
   Rm("p", "plate", "W"), Rm("p", "row1", "liquid"), Rm("b", "-", "E"), Rm("a", "-", "solid"),
   Fl("p", "plate", "W", "L", I(6)), Fl("p", "row2", "W", "L", I(5)), Fl("b", "-", "W", "L", I(12)),
-  Dl("a", "N", "mol", "L", "W", R(1, 10)),
+  Dl("a", "N", "mol", "L", "W", R(1, 10)), DlAs("a", "N", "mol", "L", "W", R(1, 12), "renamed"),
   Cc("c", I(10), <<<<"W", I(4)>>, <<"N", One>>>>), Tr("c", "-", "p", "A2", One, "L"), Tr("a", "-", "c", "-", I(2), "L"),
   Cs("sol", "N", "W", One, "mol", I(9), "L"), Cs("sol", "N", "a", I(3), "g", I(6), "L"), Tr("sol", "-", "p", "B1", One, "L"),
   Cf("a", "dil", "N", "W", R(1, 10), "mol", "L", I(4), "L"), Tr("dil", "-", "p", "B2", One, "L")>>
 PROG_Alphabet == PROG_Steps \o <<Ss("s1"), Es("s1"), Ss("s2"), Bk>>
 \* a smaller alphabet for deep random walks
 PROG_Core == <<PROG_Steps[1], PROG_Steps[2], PROG_Steps[3], PROG_Steps[4], PROG_Steps[8], PROG_Steps[9], PROG_Steps[12],
-               PROG_Steps[14], PROG_Steps[16], PROG_Steps[17], PROG_Steps[19], PROG_Steps[21], Ss("s1"), Es("s1"), Ss("s2"), Es("s2"), Bk>>
+               PROG_Steps[14], PROG_Steps[17], PROG_Steps[18], PROG_Steps[20], PROG_Steps[22], Ss("s1"), Es("s1"), Ss("s2"), Es("s2"), Bk>>
 =============================================================================
